@@ -4,7 +4,8 @@ Proof part: Props/C02.lean (settle-order independence, nonblocking commit, 4-sta
 2-state) about the reference semantics `Core/Sim.lean`.
 Correspondence/oracle part: generated small designs (combinational + sequential: `assign`,
 `always_comb` with if/case and partial assignments, `always_ff` with `if_reset`, several
-nonblocking assignments per register, `$display`), emitted as Veryl text for every
+nonblocking assignments per register, run-time indexed bit/part-select stores whose index comes
+from a `let`/wire that may be used nowhere else, `$display`), emitted as Veryl text for every
 `Config::all()` engine (interpreter / Cranelift JIT x 2-/4-state x ff-opt, cc backend) and as a
 protocol line for `vmodel sim` (= `Sim.run`). Oracle: every 2-state engine equals the reference
 wherever the reference is defined (no zero divisor upstream) and the engines agree elsewhere; the
@@ -225,7 +226,7 @@ def run(ctx):
         "classes), tools/vlib.py; the engines' lowering (interpreter, Cranelift, C emitter) is validated by these runs, not modelled",
         "test verdicts (`$assert`/`#[test]`) and native testbenches are not exercised by this check; `$display` only in always_ff",
     ]
-    ctx.cov["rule"] = ("random small designs per stratum (S0 unsigned, widths/contexts <= 64, no / %, every register reset; S1 +signed; "
+    ctx.cov["rule"] = ("random small designs per stratum (S0 unsigned, widths/contexts <= 64, no / %, every register reset, run-time indexed stores `y[idx] = d` / `y[idx*W+:W] = a - b` in half of the designs; S1 +signed; "
                        "S2 +/ %; S3 +widths 65..300; S4 +warnings, unreset registers, constant-only operands), 4-8 clock cycles of "
                        "boundary-biased stimuli incl. mid-run resets, every Config::all() engine in a worker process; reply = "
                        "per-engine trace of all output ports after every step + $display text; compared with Sim.run (Lean) and "
